@@ -88,6 +88,8 @@ def _canon(f):
     stereo perceived while maps were present (maps break ring symmetry) is
     re-perceived by a round trip through text"""
     s1 = Chem.MolToSmiles(f)
+    if s1 == "[HH]":  # RDKit keeps two canonical spellings of hydrogen gas apart; they are one molecule
+        return "[H][H]"
     if "@" not in s1 and "/" not in s1 and "\\" not in s1:
         return s1
     if s1 in _canon_cache:
